@@ -141,6 +141,7 @@ struct Driver {
     return v;
   }
 
+  int forced_op = -1;          // the next history step, when a macro wants a particular one to follow
   bool force_targets = false;
   std::vector<std::string> forced_targets;   // next build only: exactly these targets ({} = the defaults)
   InvPlan MakeBuildPlan() {
@@ -971,7 +972,17 @@ struct Driver {
     if (tool == "query" || tool == "compdb-targets") { if (targets.empty()) targets = SomeTargets(2); if (targets.empty()) return; }
     if (tool == "targets") { uint32_t m = H(4); if (m == 1) p.tool.push_back("all"); else if (m == 2) { p.tool.push_back("depth"); p.tool.push_back("2"); } else if (m == 3) { p.tool.push_back("rule"); } targets.clear(); }
     if (tool == "rules") { if (H(2)) p.tool.push_back("-d"); targets.clear(); }
-    if (tool == "compdb") { targets.clear(); if (H(2)) p.tool.push_back("-x"); }
+    if (tool == "compdb") {
+      targets.clear();
+      if (H(2)) p.tool.push_back("-x");
+      // the form build-system generators use: only the statements of the named rules
+      if (H(2)) {
+        std::vector<int> cands;
+        for (const Stmt& s : w.sc.stmts) if (s.alive && !s.phony) cands.push_back(s.id);
+        for (int n = 1 + (int)H(2); n > 0 && !cands.empty(); n--) targets.push_back("r" + std::to_string(cands[H((uint32_t)cands.size())]));
+        if (!targets.empty()) rr.stats.n["compdb_by_rule"]++;
+      }
+    }
     if (tool == "commands" && H(3) == 0) p.tool.push_back("-s");
     for (auto& t : targets) p.tool.push_back(t);
     Note("tool " + tool);
@@ -1156,6 +1167,15 @@ struct Driver {
     std::set<std::string> scope, existing;
     for (auto& kv : fold.last) if (!in_graph.count(kv.first)) scope.insert(kv.first);
     for (auto& x : scope) if (w.k.Exists(x)) existing.insert(x);
+    // (reach: a file the log knows that is a checked-in file by now, and one only aliases name)
+    {
+      std::set<std::string> read_by_cmd;
+      for (const Stmt& c : w.sc.stmts) if (c.alive && !c.phony) for (auto* v : {&c.ins, &c.imp_ins, &c.oo_ins}) for (auto& x : *v) read_by_cmd.insert(x);
+      for (auto& kv : fold.last) if (w.sc.IsSource(kv.first) && in_graph.count(kv.first) && w.k.Exists(kv.first)) {
+        rr.stats.n["cleandead_logged_file_now_source"]++;
+        if (!read_by_cmd.count(kv.first)) rr.stats.n["cleandead_logged_file_only_aliased"]++;
+      }
+    }
     InvRecord r = w.RunInvocation(p);
     Note(ResultText(r));
     if (getenv("SIM_SHOW_OUTPUT")) Note("  stdout: " + r.res.out.substr(0, 2000) + "\n  stderr: " + r.res.err);
@@ -1165,7 +1185,9 @@ struct Driver {
     // (replacing a log by its recompacted copy unlinks it first: log maintenance, not cleaning)
     for (const Ev& e : r.res.trace) if (e.kind == Ev::kFsRemove && !IsLogPath(e.s)) removed.insert(e.s.compare(0, 3, "/w/") == 0 ? e.s.substr(3) : e.s);
     for (auto& pth : removed) {
-      if (w.sc.IsSource(pth) || pth == "build.ninja") w.Report("C18", "clean_out_of_scope", "cleandead deleted the source file " + pth);
+      // (a once-generated, now checked-in file that the graph has stopped naming altogether is, to
+      // ninja, exactly what cleandead is for: the log knows it and nothing mentions it)
+      if ((w.sc.IsSource(pth) && !scope.count(pth)) || pth == "build.ninja") w.Report("C18", "clean_out_of_scope", "cleandead deleted the source file " + pth);
       else if (!scope.count(pth)) w.Report("C18", "clean_out_of_scope", "cleandead deleted " + pth + " which is still part of the graph or was never recorded in the build log");
     }
     if (p.dry && !removed.empty()) w.Report("C18", "clean_out_of_scope", "ninja -n -t cleandead removed files");
@@ -1200,6 +1222,65 @@ struct Driver {
       Note("manifest edit: `deps = gcc` dropped from statement " + std::to_string(q.id) + " (depfile kept)");
       w.WriteManifest();
       rr.stats.n["manifest_edit_deps_dropped"]++;
+      return;
+    }
+    // a fourth kind: a generated file becomes a checked-in one.  The statement goes, what it
+    // made stays - hand-written now - and the statements that read it go on reading it
+    std::vector<int> inner;
+    for (const Stmt& q : w.sc.stmts) {
+      if (!q.alive || q.regen || q.phony || !q.dyndep.empty()) continue;
+      bool is_used = false, dd = false;
+      // (not one a dyndep file names: whether the graph still mentions it would depend on that file being there)
+      for (auto& o : w.sc.DeclaredOuts(q.id)) {
+        if (used.count(o)) is_used = true;
+        if (w.sc.FindDyndep(o)) dd = true;
+        for (auto& d : w.sc.dyndeps) for (auto& e : d.entries) for (auto& x : e.imp_ins) if (x == o) dd = true;
+      }
+      if (is_used && !dd) inner.push_back(q.id);
+    }
+    bool can_alias = false;
+    for (const Stmt& c : w.sc.stmts) if (c.alive && c.phony) can_alias = true;
+    if (can_alias) { can_alias = false; for (int id : leaves) if (!w.sc.stmts[id].phony) can_alias = true; }
+    if ((!inner.empty() || can_alias) && H(4) == 0) {
+      // (half the time one whose outputs only aliases and validations still name, if there is one)
+      std::set<std::string> really_read;
+      for (const Stmt& c : w.sc.stmts) {
+        if (!c.alive || c.phony) continue;
+        for (auto* v : {&c.ins, &c.imp_ins, &c.oo_ins, &c.hidden}) for (auto& x : *v) really_read.insert(x);
+      }
+      for (auto& d : w.sc.dyndeps) for (auto& e : d.entries) for (auto& x : e.imp_ins) really_read.insert(x);
+      std::vector<int> alias_only;
+      for (int id : inner) {
+        bool rr2 = false;
+        for (auto& o : w.sc.DeclaredOuts(id)) if (really_read.count(o)) rr2 = true;
+        if (!rr2) alias_only.push_back(id);
+      }
+      if (!alias_only.empty() && H(2) == 0) inner = alias_only;
+      // (or an alias goes on listing a name no statement makes any more)
+      std::vector<int> aliases, plain_leaves;
+      for (const Stmt& c : w.sc.stmts) if (c.alive && c.phony) aliases.push_back(c.id);
+      for (int id : leaves) if (!w.sc.stmts[id].phony) plain_leaves.push_back(id);
+      if (!aliases.empty() && !plain_leaves.empty() && H(3) == 0) {
+        int leaf = plain_leaves[H((uint32_t)plain_leaves.size())];
+        Stmt& a = w.sc.stmts[aliases[H((uint32_t)aliases.size())]];
+        a.ins.push_back(w.sc.stmts[leaf].outs[0]);
+        used.insert(w.sc.stmts[leaf].outs[0]);
+        inner.assign(1, leaf);
+        Note("manifest edit: alias " + a.outs[0] + " now also lists " + w.sc.stmts[leaf].outs[0]);
+      }
+      if (inner.empty()) return;
+      Stmt& q = w.sc.stmts[inner[H((uint32_t)inner.size())]];
+      q.alive = false;
+      for (auto& o : w.sc.DeclaredOuts(q.id)) {
+        if (!used.count(o)) continue;   // what nothing reads is simply left behind
+        w.sc.sources.push_back(o);
+        w.version[o] = 0;
+        w.k.WriteFile(o, w.SourceContent(o), true);
+      }
+      Note("manifest edit: statement " + std::to_string(q.id) + " removed, its outputs are checked-in files now");
+      w.WriteManifest();
+      rr.stats.n["manifest_edit_output_to_source"]++;
+      if (prof.w_cleandead > 0 && H(2) == 0) forced_op = 10;   // ... and the next thing the user does is tidy up
       return;
     }
     if (leaves.empty()) return;
@@ -1851,6 +1932,7 @@ struct Driver {
       for (int x : ws) total += x;
       int c = (int)H((uint32_t)total), op = 0;
       while (c >= ws[op]) { c -= ws[op]; op++; }
+      if (forced_op >= 0) { op = forced_op; forced_op = -1; }
       switch (op) {
         case 0: DoBuild(); break;
         case 1: DoEdit(true); break;
